@@ -14,7 +14,7 @@ func VerifC11_type1_fixed_blind() {
 	key, err := oprf.GenerateKey(oprf.SuiteP384, rand.Reader)
 	vAssume(err == nil)
 	issuer := NewBasicPrivateIssuer(key)
-	challenge := vBytesC("challenge", 0, 2)
+	challenge := vBytesC("challenge", 0, vBound("C11_challenge", 2, 40))
 	nonce := vBytes("nonce", 32, 32)
 	keyID := issuer.TokenKeyID()
 	blindA := vBytes("blindA", 48, 48)
